@@ -75,7 +75,7 @@ func loadRepo(root string) (*Loaded, error) {
 			return nil, fmt.Errorf("package %s: %v", p.PkgPath, e)
 		}
 	}
-	prog, spkgs := ssautil.Packages(pkgs, ssa.BuilderMode(0))
+	prog, spkgs := ssautil.Packages(pkgs, ssa.GlobalDebug)
 	prog.Build()
 	l := &Loaded{fset: fset, pkgs: pkgs, prog: prog, spkgs: spkgs, funcs: map[string]*ssa.Function{}, root: root}
 	for _, sp := range spkgs {
